@@ -195,7 +195,7 @@ func RunWorld(env *Env, w *World) *Outcome {
 		if out2.Viol == nil {
 			for _, p := range model.SortedKeys(out.Stats.Sorted) {
 				a, c := out.Stats.Sorted[p], out2.Stats.Sorted[p]
-				if c != nil && string(a) != string(c) {
+				if c != nil && !sameEntries(a, c) && !naturalTies(a) {
 					v := viol("sort-depends-on-initial-order", len(w.Lifetimes)-1, -1, p, []string{"C10"}, "after Clean with Sort, %s differs between two worlds that hold the same entries recorded in a different order:\n%q\nvs\n%q", p, clip2(string(a)), clip2(string(c)))
 					v.File = p
 					if st := (&wstate{env: env, w: w, out: out}); st.hit(v) {
@@ -306,6 +306,26 @@ func RunWorld(env *Env, w *World) *Outcome {
 	return out
 }
 
+// sameEntries: the two files hold the same entries with the same bodies in the same
+// order (blank lines between entries do not count: a file that needed no rewrite keeps
+// the ones a user put there).
+func sameEntries(a, b []byte) bool {
+	ea, erra := ParseSnap(a)
+	eb, errb := ParseSnap(b)
+	if erra != nil || errb != nil {
+		return string(a) == string(b)
+	}
+	if len(ea) != len(eb) {
+		return false
+	}
+	for i := range ea {
+		if ea[i].ID != eb[i].ID || ea[i].Body != eb[i].Body {
+			return false
+		}
+	}
+	return true
+}
+
 func clip2(s string) string {
 	if len(s) > 300 {
 		return s[:300] + "..."
@@ -391,6 +411,9 @@ func (st *wstate) runLifetime(i int, l *scen.Lifetime) {
 	}
 	if l.PreCorrupt > 0 {
 		st.preCorrupt(l.PreCorrupt)
+	}
+	if l.PreEdit > 0 {
+		st.preEdit(l.PreEdit)
 	}
 	before, err := world.ReadDisk(st.root, skipDisk)
 	if err != nil {
@@ -881,6 +904,47 @@ func (st *wstate) preCorrupt(n int) {
 	st.corrupted[p] = true
 	st.out.Stats.Faults["storage:"+kind]++
 	st.out.Stats.Probes["fault_fired"]++
+}
+
+// preEdit inserts extra blank lines into one structurally parseable multi-entry file
+// (a hand edit the library ignores); the file stays predicted.
+func (st *wstate) preEdit(n int) {
+	var files []string
+	for p, f := range st.d.Multi {
+		if !f.Dirty && Parseable(f) && len(f.Entries) > 0 {
+			files = append(files, p)
+		}
+	}
+	sort.Strings(files)
+	if len(files) == 0 {
+		return
+	}
+	p := files[n%len(files)]
+	data, err := os.ReadFile(st.root + p)
+	if err != nil {
+		return
+	}
+	if _, perr := ParseSnap(data); perr != nil {
+		return
+	}
+	// entries are separated by "---\n": put blank lines after the k-th terminator (or at the top)
+	parts := strings.SplitAfter(string(data), "\n---\n")
+	k := (n / len(files)) % (len(parts) + 1)
+	extra := strings.Repeat("\n", 1+n%3)
+	var out string
+	if k == 0 {
+		out = extra + string(data)
+	} else {
+		out = strings.Join(parts[:k], "") + extra + strings.Join(parts[k:], "")
+	}
+	if act, perr := ParseSnap([]byte(out)); perr != nil || len(act) != len(st.d.Multi[p].Entries) {
+		return // (a body that itself holds a terminator-like sequence: leave the file alone)
+	}
+	if os.WriteFile(st.root+p, []byte(out), 0o644) != nil {
+		return
+	}
+	delete(st.sortedOK, p)
+	st.out.Stats.Probes["hand_edit_blank_lines"]++
 }
 
 func cfgUpd(lf *model.Life, c *scen.Call) *bool {
